@@ -518,3 +518,12 @@ package server
 //@ loop 1 invariant (forall k in 0..loopi :: vrfs[k] in dom(s.masterRIB.niRIB)) && s.cs != nil && dom(s.cs) == emptyset(string) && onlyfresh()
 //@ assigns nothing
 //@ props C02 C03 C16 C12:safety
+
+// an instance added while the server runs keeps every invariant the handlers rely on (it is gated and notified like the others)
+//@ unit Server.AddNetworkInstance
+//@ requires s != nil && s.masterRIB != nil && ribReady(s.masterRIB) && hookInv(s.masterRIB)
+//@ ensures[rib-stays-ready] holdersWF(s.masterRIB) && pendingWF(s.masterRIB) && gateInv(s.masterRIB) && hookInv(s.masterRIB)
+//@ ensures[added-or-refused] (result0 == nil ==> ni in dom(s.masterRIB.niRIB)) && (ni in old(dom(s.masterRIB.niRIB)) ==> result0 != nil)
+//@ ensures[others-kept] forall k in old(dom(s.masterRIB.niRIB)) :: k in dom(s.masterRIB.niRIB) && s.masterRIB.niRIB[k] == old(s.masterRIB.niRIB[k])
+//@ assigns s.masterRIB.niRIB[ni]
+//@ props C02 C03 C16 C12:safety C11:lock
